@@ -374,6 +374,8 @@ def c39_move_flat_parent(viol, inp, param):
 @classifier("witness_oracle")
 def witness_oracle(viol, inp, param):
     """an edit-history finding identified by its specific input: param = gen:seed:boards:aspect-prefix"""
+    if "," in param:   # several witnesses of the same defect
+        return any(witness_oracle(viol, inp, w) for w in param.split(","))
     gen, seed, boards, aspect = param.split(":")
     if gen == "script":   # a written history of harness/cmd/vdrive/oraclescripts.go, by its 1-based number
         return str(inp.get("script", 0)) == seed and viol["aspect"].startswith(aspect)
